@@ -71,6 +71,7 @@ type c17call struct {
 	Hdr     [][2]string // per-call headers (WithHeader)
 	OmitOwn string      // required header deliberately omitted ("" = none) → expect 400
 	CallCT  string
+	Extra   [][2]string    `json:"Extra,omitempty"` // options discovered in the emitted client beyond the documented ones
 	Raw     map[string]any `json:"Raw,omitempty"` // hand-made HTTP request (malformed body / URL value)
 	Want    string         // ok | validation | st400
 }
@@ -183,9 +184,37 @@ func c17calls(c *Ctx, label string, n int) []c17call {
 	for i := 0; i < n; i++ {
 		rt := c17routes[r.Intn(len(c17routes))]
 		kind := c17kinds[r.Intn(len(c17kinds))]
-		out = append(out, c17mk(rt, kind, fmt.Sprintf("%s-%d", label, i), i, r.Int63))
+		cl := c17mk(rt, kind, fmt.Sprintf("%s-%d", label, i), i, r.Int63)
+		if ex := c17extras[rt.Svc]; len(ex) > 0 && kind == "normal" && r.Intn(5) == 0 {
+			c17withExtra(&cl, ex[r.Intn(len(ex))], r.Intn)
+		}
+		out = append(out, cl)
 	}
 	return out
+}
+
+// c17extras: per service (short name), the per-call options found in the emitted client that are none
+// of the documented ones and that the glue can pass (filled in by c17 after generation; empty on a
+// tree that emits only the documented options).
+var c17extras = map[string][]lab.ExtraOpt{}
+
+// c17withExtra attaches a discovered option to a call with an argument chosen by its parameter
+// type. What such an option means is unknown, so that call itself is not judged (Want "any"):
+// the point is what it does to every OTHER call.
+func c17withExtra(cl *c17call, e lab.ExtraOpt, intn func(int) int) {
+	typ := e.Params[len(e.Params)-1]
+	vals := map[string][]string{
+		"time.Duration": {"1ns", "1h", "3ms"},
+		"string":        {"zz-extra", ""},
+		"bool":          {"true", "false"},
+		"float64":       {"0.5", "-1"}, "float32": {"0.5", "-1"},
+	}[typ]
+	if vals == nil {
+		vals = []string{"1", "0", "-1", "1000000"}
+	}
+	cl.Extra = append(cl.Extra, [2]string{e.Name, vals[intn(len(vals))]})
+	cl.Kind = "extra-option"
+	cl.Want = "any"
 }
 
 // c17sequences is the deterministic part of the workload: on every route, each kind of rejected
@@ -204,6 +233,21 @@ func c17sequences(c *Ctx, label string) []c17call {
 			add(rt, "partial")
 			add(rt, "raw-ok")
 			add(rt, "normal")
+		}
+	}
+	// every discovered option, with every argument class, followed by plain calls on every route
+	for _, a := range c17routes {
+		for _, e := range c17extras[a.Svc] {
+			for k := 0; k < 3; k++ {
+				i := len(out)
+				cl := c17mk(a, "normal", fmt.Sprintf("%s-%d", label, i), i, r.Int63)
+				kk := k
+				c17withExtra(&cl, e, func(n int) int { return kk % n })
+				out = append(out, cl)
+				for _, b := range c17routes {
+					add(b, "normal")
+				}
+			}
 		}
 	}
 	// and across routes: a rejected request on one route followed by defaults on every other one
@@ -253,6 +297,18 @@ func c17(c *Ctx) {
 		c.R.Violate("conc/all", "refused", ad.Refused, map[string]any{"proto": protoText})
 		return
 	}
+	c17extras = map[string][]lab.ExtraOpt{}
+	for full, list := range ad.Extras {
+		for _, e := range list {
+			c.R.Count("client_options_found_beyond_the_documented_ones", 1)
+			if e.Driven {
+				c.R.Count("client_options_found_and_driven", 1)
+				short := full[strings.LastIndex(full, ".")+1:]
+				c17extras[short] = append(c17extras[short], e)
+			}
+		}
+	}
+	c.R.Set("client_option_discovery", "emitted *_client.pb.go scanned for With<Service>*Option constructors")
 	if un := l.CompileAll(false); un != "" {
 		c.R.Harness("unattributed build output: " + firstLines(un, 10))
 		return
@@ -460,6 +516,13 @@ func c17run(bin, raceLog string, gmp, par int, pkg string, calls []c17call, reg 
 		if cl.Raw != nil {
 			bc["raw"] = cl.Raw
 		}
+		if len(cl.Extra) > 0 {
+			var ex []map[string]string
+			for _, kv := range cl.Extra {
+				ex = append(ex, map[string]string{"K": kv[0], "V": kv[1]})
+			}
+			bc["extra"] = ex
+		}
 		bcs = append(bcs, bc)
 	}
 	id := newID("b")
@@ -543,6 +606,12 @@ func c17run(bin, raceLog string, gmp, par int, pkg string, calls []c17call, reg 
 	for _, id := range ids {
 		out = append(out, c17outcome{Class: "entry", Echo: id, Seen: fmt.Sprint(perCall[id])})
 	}
+	// state monitor on the shared *http.Client / http.DefaultClient (compared before and after the burst in the child)
+	if ch := oas.S(ev["shared_client_changed"]); ch != "" {
+		out = append(out, c17outcome{Class: "shared-client-changed", Echo: ch})
+	} else if oas.S(ev["shared_client_state"]) != "" {
+		out = append(out, c17outcome{Class: "shared-client-unchanged"})
+	}
 	return out, strings.Join(order, ","), nil
 }
 
@@ -558,6 +627,14 @@ func c17check(c *Ctx, caseID string, calls []c17call, burst, seq []c17outcome, p
 	for i, cl := range calls {
 		byID[cl.Hdr[len(cl.Hdr)-1][1]] = i
 		b := burst[i]
+		if cl.Want == "any" {
+			// a call carrying a discovered option of unknown meaning: only the OTHER calls are judged
+			if strings.HasPrefix(b.Class, "panic") {
+				c.R.Violate(caseID, "panic", cl.Kind, rp(i, nil))
+			}
+			c.R.Decided(caseID + "/" + cl.RPC + "/" + cl.Kind)
+			continue
+		}
 		// expectation from the stateless model
 		if b.Class != cl.Want {
 			c.R.Violate(caseID, "outcome-class", cl.Kind+": want "+cl.Want+" got "+strings.SplitN(b.Class, ":", 2)[0], rp(i, nil))
@@ -617,6 +694,12 @@ func c17check(c *Ctx, caseID string, calls []c17call, burst, seq []c17outcome, p
 	// exactly-once: the handler log of the burst, keyed by the unique X-Call id
 	entered := map[string]int{}
 	for _, extra := range burst[len(calls):] {
+		switch extra.Class {
+		case "shared-client-changed":
+			c.R.Violate(caseID, "shared-http-client-reconfigured-by-calls", "", map[string]any{"proto": protoText, "burst": label, "change": extra.Echo})
+		case "shared-client-unchanged":
+			c.R.Count("bursts_with_shared_http_client_state_compared", 1)
+		}
 		if extra.Class == "entry" {
 			n := 0
 			fmt.Sscan(extra.Seen, &n)
@@ -630,7 +713,7 @@ func c17check(c *Ctx, caseID string, calls []c17call, burst, seq []c17outcome, p
 			c.R.Violate(caseID, "handler-entered-for-unknown-call", "", map[string]any{"proto": protoText, "burst": label, "x_call": id})
 		case n > 1:
 			c.R.Violate(caseID, "handler-entered-twice", "", rp(i, map[string]any{"entries": n}))
-		case calls[i].Want != "ok":
+		case calls[i].Want != "ok" && calls[i].Want != "any":
 			c.R.Violate(caseID, "handler-entered-for-rejected-call", calls[i].Kind, rp(i, nil))
 		}
 	}
@@ -643,6 +726,9 @@ func c17check(c *Ctx, caseID string, calls []c17call, burst, seq []c17outcome, p
 	type in struct{ want string }
 	var ops []porcupine.Operation
 	for i, cl := range calls {
+		if cl.Want == "any" {
+			continue // outside the model: an option of unknown meaning
+		}
 		want := cl.Want + "//"
 		if cl.Want == "ok" {
 			want = "ok/" + fmt.Sprintf("%s|%s|%d|%s", cl.ID, cl.Payload, cl.N, cl.PathA)
